@@ -1,6 +1,7 @@
 mod canon;
 mod dbwalk;
 mod expect;
+mod foreign;
 mod gen_dom;
 mod gen_value;
 mod report;
@@ -84,6 +85,9 @@ fn main() {
         "dbinfo" => dbinfo(&a),
         "c01" => rt::main(&a, gen_dom::Fmt::Binary),
         "c02" => rt::main(&a, gen_dom::Fmt::Xml),
+        "foreigngen" => foreign::gen_main(&a),
+        "widenlist" => foreign::widen_list(&a),
+        "readcmp" => foreign::readcmp_main(&a),
         other => {
             eprintln!("unknown command {other:?}");
             std::process::exit(2);
